@@ -189,7 +189,7 @@ func c02Observe(id string, src string, v wire.Value, calls []sx.Call, seed int64
 			}
 			sd = append(sd, e)
 		}
-		o["sdec"] = sd
+		o["sdec"] = dedupe(sd)
 	})
 	o["panic"] = p
 	return o
@@ -300,6 +300,32 @@ func capN(n int64, l int) int {
 	return int(n)
 }
 
+// dedupe merges results that are identical up to the policy name; the merged
+// entry lists the policies that produced it.
+func dedupe(rs []wj.J) []wj.J {
+	var out []wj.J
+	var keys []string
+	for _, r := range rs {
+		pol, _ := r["pol"].(string)
+		delete(r, "pol")
+		kb, _ := json.Marshal(r)
+		k := string(kb)
+		found := false
+		for i := range keys {
+			if keys[i] == k {
+				out[i]["pols"] = append(out[i]["pols"].([]string), pol)
+				found = true
+			}
+		}
+		if !found {
+			r["pols"] = []string{pol}
+			keys = append(keys, k)
+			out = append(out, r)
+		}
+	}
+	return out
+}
+
 func res(ok bool, n int, v wj.J, ec string) wj.J {
 	return wj.J{"ok": ok, "n": n, "v": v, "ec": ec}
 }
@@ -354,7 +380,7 @@ func c03Observe(id, src string, b []byte, t wire.Type, seed int64, inf *inflight
 				}
 				sts = append(sts, e)
 			}
-			o["st"] = sts
+			o["st"] = dedupe(sts)
 		}
 		// skip: seekable
 		br := bytes.NewReader(b)
@@ -374,7 +400,7 @@ func c03Observe(id, src string, b []byte, t wire.Type, seed int64, inf *inflight
 			e["pol"] = pol
 			sks = append(sks, e)
 		}
-		o["sks"] = sks
+		o["sks"] = dedupe(sks)
 	})
 	return o
 }
@@ -434,6 +460,7 @@ func cmdC03(args []string) error {
 	c := newCommon("c03")
 	infPath := c.fs.String("inflight", "", "file receiving the case in flight")
 	depth := c.fs.Int("depth", 3, "max depth of random values to mutate")
+	oddTypes := c.fs.Bool("oddtypes", true, "also request unknown type codes for TLC cases")
 	c.fs.Parse(args)
 	out, err := newObsWriter(c.out)
 	if err != nil {
@@ -452,6 +479,9 @@ func cmdC03(args []string) error {
 			return out.write(c03Observe(id, "tlc", b, wire.Type(tf), c.seed, inf))
 		}
 		for _, t := range reqTypes {
+			if !*oddTypes && (t < 2 || t > 15 || t == 5) {
+				continue
+			}
 			if err := out.write(c03Observe(fmt.Sprintf("%s/%d", id, t), "tlc", b, t, c.seed, inf)); err != nil {
 				return err
 			}
